@@ -65,9 +65,12 @@ void _ZN10QByteArray18fromBase64EncodingEOS_6QFlagsINS_12Base64OptionEE(char *re
    (same text => same answer), so a harness can ask what the text "means" and compare with what the real code did ---- */
 #define C06_INTCAP 4
 static struct { QAD *txt; uint32_t val; uint8_t ok; } c06_ints[C06_INTCAP]; static uint32_t c06_nints;
+static uint32_t c06_toint_fixed;
+void vp_toint_fix(uint32_t v) { c06_toint_fixed = v; }
 uint32_t _ZNK10QByteArray5toIntEPbi(char *self, char *ok, uint32_t base) { QAD *d = QBD(self);
   if (numB(d).isnum || d->f1 == 0) return qtcore_QByteArray_toInt(self, ok, base);
   uint8_t k = vp_bool(); uint32_t v = vp_u32(); if (!k) v = 0;
+  if (c06_toint_fixed) { k = 1; v = c06_toint_fixed; }   /* harness switch: every ordinary text means this number (keeps the accept path concrete) */
   for (uint32_t i = 0; i < C06_INTCAP; i++) { if (i >= c06_nints) break; if (qb_eq(c06_ints[i].txt, d)) { k = c06_ints[i].ok; v = c06_ints[i].val; break; } }
   ASSERT(c06_nints < C06_INTCAP, "toInt oracle capacity"); c06_ints[c06_nints].txt = qad_ref(d); c06_ints[c06_nints].val = v; c06_ints[c06_nints].ok = k; c06_nints++;
   if (ok) *ok = k; return v; }
